@@ -27,7 +27,7 @@ RULE = (
     "non-trivial = every judged call (the decision depends on a fresh uniform draw and a non-zero energy / volume / particle change)"
 )
 ASSUMPTIONS = [
-    "the finite-strain measure of the isotension work term is taken from what the criteria reports (strain_tensor); the statement does not define it. Judged independently: hydrostatic stress must reproduce the isobaric decision for every cell",
+    "the statement does not define the finite-strain measure of the isotension work term; the oracle uses the one the package implements at the pinned commit, recomputed independently from the two cells: eps = ((h h0^-1)^T - 1)/2 (rows of h = cell vectors). Independently of that choice: hydrostatic stress must reproduce the isobaric decision for every cell, an unchanged cell has zero strain, a pure scaling has isotropic strain",
     "only single-particle exchanges (delta N = +-1) are judged",
     "calls with |log u - log A| < 1e-9 relative are counted as undecidable (probability ~1e-9 per call)",
     "thermal wavelength from ase.units CODATA constants: h / sqrt(2 pi m kT)",
